@@ -316,7 +316,13 @@ def _construct(rng, cls, n, target):
             a, b = rng.randrange(n), rng.randrange(n)
             kk = (min(a, b), max(a, b)) if und else (a, b)
             if kk not in target:
-                ops.append(add(*orient(a, b), junkval())); ops.append('R %d %d' % orient(a, b))
+                ops.append(add(*orient(a, b), junkval()))
+                if rng.random() < 0.5: ops.append('R %d %d' % orient(a, b))
+                else:
+                    # removeVertexFromEdgeList on either endpoint (lower or higher), then whatever it destroyed of the target is put back
+                    v = rng.choice([a, b]); ops.append('V %d' % v)
+                    for k2 in sorted(done):
+                        if v in k2: ops.append(add(*orient(*k2), target[k2]))
         r = rng.random()
         if multi and v > 1 and r < 0.4:
             v1 = rng.randint(1, v - 1); ops.append(add(*orient(i, j), v1)); ops.append(add(*orient(i, j), v - v1))
@@ -418,7 +424,7 @@ def coq_term_conv(case):
         if cls == 'D': return 'd_cv_case %s repaired %s [%s]' % (hs, n, '; '.join(coq_dop(o) for o in ops))
         return 'u_cv_case %s repaired true %s [%s]' % (hs, n, '; '.join(coq_uop(o) for o in ops))
     _, cls, lk = t
-    es = '[%s]' % '; '.join('(%s, %s, (%s)%%Z)' % tuple(o.split()) for o in body.split(';') if o.strip())
+    es = '[%s]' % '; '.join('(%s%%nat, %s%%nat, (%s)%%Z)' % tuple(o.split()) for o in body.split(';') if o.strip())
     hs = 'false' if lk == 'none' else 'true'
     f = {'D': 'd_el_case %s repaired' % hs, 'U': 'u_el_case %s repaired' % hs, 'DM': 'dm_el_case repaired', 'UM': 'um_el_case repaired',
          'DW': 'dw_el_case repaired', 'UW': 'uw_el_case repaired'}[cls]
